@@ -29,8 +29,15 @@ def trains(case):
                 arg = np.array(tr, dtype=float)
             out.append(pyspike.SpikeTrain(arg, [case["t0"], case["t1"]]))
         return out
-    out = [pyspike.SpikeTrain(np.array(tr, dtype=float), [case["t0"], case["t1"]])
-           for tr in case["trains"]]
+    if case.get("ctor") in ("unsorted", "unsorted_copy"):
+        out = []
+        for k, tr in enumerate(case["trains"]):
+            arr = np.array(tr[::-1] if k % 2 == 0 else tr[1:] + tr[:1], dtype=float)
+            s_ = pyspike.SpikeTrain(arr, [case["t0"], case["t1"]], is_sorted=False)
+            out.append(s_.copy() if case["ctor"] == "unsorted_copy" else s_)
+    else:
+        out = [pyspike.SpikeTrain(np.array(tr, dtype=float), [case["t0"], case["t1"]])
+               for tr in case["trains"]]
     if case.get("alias_equal"):
         # equal trains are ONE object sitting at several positions of the list
         for a in range(len(out)):
@@ -67,6 +74,85 @@ def prime(ctx, case, sts, fns, pair_only=()):
         ctx.call("priming_call", fn, sts[0], other)
         ctx.call("priming_call", fn, other, sts[-1])
     ctx.notes["primed:" + how] += 1
+
+
+def reedit(case, sts):
+    """case["reuse"]: the caller keeps the SpikeTrain objects of a first round of calls,
+    edits them IN PLACE (they stay valid) and calls again.  Mutates `sts`, returns the case
+    that describes the objects now (None: no such edit possible for this case).
+    'elem': the last spike of the first non-empty train is moved (st.spikes[-1] = t);
+    'shift': all its spikes are shifted (st.spikes += d); 'edges': every train's t_end is
+    moved out by half a recording length (st.t_end = ...)."""
+    import copy as _copy
+    kind = case.get("reuse")
+    if not kind or case.get("int_times"):
+        return None
+    c2 = _copy.deepcopy(case)
+    for key in ("reuse", "prime", "ctor"):
+        c2.pop(key, None)
+    t0, t1 = float(case["t0"]), float(case["t1"])
+    if kind == "edges":
+        new_t1 = t1 + (t1 - t0) / 2
+        for s_ in sts:
+            s_.t_end = new_t1
+        c2["t1"] = new_t1
+        return c2
+    k = next((j for j, tr in enumerate(case["trains"]) if tr), None)
+    if k is None or not isinstance(sts[k].spikes, np.ndarray) or sts[k].spikes.dtype != float:
+        return None
+    tr = [float(v) for v in case["trains"][k]]
+    if kind == "shift":
+        if tr[-1] < t1:
+            d = (t1 - tr[-1]) / 2
+        elif tr[0] > t0:
+            d = -(tr[0] - t0) / 2
+        else:
+            kind = "elem"
+    if kind == "shift":
+        new = [v + d for v in tr]
+    else:
+        prev = tr[-2] if len(tr) > 1 else t0
+        cand = (prev + t1) / 2
+        if cand == tr[-1]:
+            cand = (prev + tr[-1]) / 2
+        new = tr[:-1] + [cand]
+    if not (all(a < b for a, b in zip(new, new[1:])) and t0 <= new[0] and new[-1] <= t1
+            and new != tr):
+        return None
+    if kind == "shift":
+        sts[k].spikes += d
+    else:
+        sts[k].spikes[-1] = new[-1]
+    if [float(v) for v in sts[k].spikes] != new:
+        from .env import HarnessError
+        raise HarnessError("in-place edit of a SpikeTrain did not take: %r vs %r"
+                           % (list(sts[k].spikes), new))
+    for j in range(len(sts)):
+        if sts[j] is sts[k]:
+            c2["trains"][j] = list(new)
+    return c2
+
+
+def judge_twice(case, ctx, sts, judge):
+    """judge(case, ctx, sts); then, if the case asks for it, the in-place edit and a
+    second judgement of the same objects (labels prefixed with after_in_place_edit:)"""
+    judge(case, ctx, sts)
+    c2 = reedit(case, sts)
+    if c2 is None:
+        return
+    ctx.notes["rejudged_after_in_place_edit:" + case["reuse"]] += 1
+    orig = ctx.fail
+
+    def fail(label, detail=""):
+        d = detail() if callable(detail) else detail
+        return orig("after_in_place_edit:" + label,
+                    "[same objects after in-place edit '%s'; they now are %r on [%r, %r]] %s"
+                    % (case["reuse"], c2["trains"], c2["t0"], c2["t1"], d))
+    ctx.fail = fail
+    try:
+        judge(c2, ctx, sts)
+    finally:
+        del ctx.fail
 
 
 def fr_trains(case):
